@@ -1,7 +1,7 @@
 #!/usr/bin/env python3
 """C16: the OKL front end reports malformed input instead of crashing (E2, deviation-bounded exhaustive generation).
 
-Model-checking reading of "any input text": every program within token-edit distance 1 of 12 valid seed kernels
+Model-checking reading of "any input text": every program within token-edit distance 1 of 13 valid seed kernels
 (delete / duplicate / swap-with-next / truncate-after / replace by each token of a 34-token alphabet), distance 2 inside
 a sliding 6-token window (thorough), and every byte string up to a length over small alphabets wrapped into a kernel
 body / put in front of a kernel / alone.  Every program is parsed and transformed by all seven translators in-process.
@@ -31,6 +31,7 @@ import gen
 MODES = ["serial", "openmp", "cuda", "hip", "opencl", "metal", "dpcpp"]
 CPU_LIMIT_REL = 5.0        # the property's bound
 CPU_LIMIT_ASAN = 120.0     # same bound scaled by the measured ASan slowdown of the parser (>= 24x)
+CONFIRM_CAP = 120
 
 
 def hx(s):
@@ -80,6 +81,24 @@ def outcome_class(d):
     return (vec, first[:80])
 
 
+def crash_signature(crash, st):
+    """crash:<sanitizer error kind | signal>:<innermost frame that is a function of namespace occa>"""
+    kind = crash or "crash"
+    m = re.search(r"ERROR: AddressSanitizer: ([A-Za-z0-9_-]+)", st or "")
+    if m:
+        kind = m.group(1)
+    elif crash and crash.startswith("signal:"):
+        kind = {"8": "SIGFPE", "11": "SIGSEGV", "6": "SIGABRT", "4": "SIGILL", "7": "SIGBUS"}.get(crash[7:], crash)
+    fn = "?"
+    for m in re.finditer(r"#\d+ (?:0x[0-9a-f]+ )?in ([^\n]*)", st or ""):
+        f = m.group(1).strip()
+        if f.startswith("occa::"):
+            fn = re.sub(r"\(.*", "", f).strip()
+            fn = re.sub(r"<.*", "", fn)
+            break
+    return "crash:%s:%s" % (kind, fn)
+
+
 def ubsan_signature(text):
     """ubsan:<check kind>:<file>:<line> of the first report"""
     m = re.search(r"([A-Za-z0-9_./+-]+):(\d+):\d+: runtime error: ([^\n]*)", text)
@@ -100,38 +119,63 @@ def ubsan_signature(text):
     return "ubsan:%s:%s:%s" % (kind, f, m.group(2))
 
 
+def dbg(msg):
+    if os.environ.get("C16_DEBUG"):
+        print("[C16] " + msg, file=sys.stderr)
+        sys.stderr.flush()
+
+
 def main():
     c = Check("C16", "exploration")
     quick = c.tier == "quick"
     c.build("rel")
     c.build("asan")
-    exe_rel = c.compile(os.path.join(HERE, "driver.cpp"), "driver-rel", variant="rel", extra=["-fsanitize=undefined"])
-    exe_asan = c.compile(os.path.join(HERE, "driver.cpp"), "driver-asan", variant="asan")
+    from concurrent.futures import ThreadPoolExecutor
+    with ThreadPoolExecutor(max_workers=2) as ex:       # the two harness compiles are independent
+        f_rel = ex.submit(c.compile, os.path.join(HERE, "driver.cpp"), "driver-rel", variant="rel", extra=["-fsanitize=undefined"])
+        f_asan = ex.submit(c.compile, os.path.join(HERE, "driver.cpp"), "driver-asan", variant="asan")
+        exe_rel, exe_asan = f_rel.result(), f_asan.result()
     env = fbp.asan_env(san_env(c.scratch))
     R_rel = Runner(c, exe_rel, env, CPU_LIMIT_REL, 60.0)
     R_asan = Runner(c, exe_asan, env, CPU_LIMIT_ASAN, 600.0)
 
+    def confirm_all(texts):
+        """run every program alone, one translator per item, on freshly constructed parsers under ASan+UBSan (one batch,
+        16-way parallel); returns for every text the list of (signature, detail) - empty when nothing reproduces"""
+        if not texts:
+            return []
+        items, flags = [], []
+        for t in texts:
+            for m in range(7):
+                items.append(t)
+                flags.append("N%d" % m)
+        res, complete = R_asan.run(items, flags, chunk=max(7, min(70, 7 * (len(texts) // 32 + 1))))
+        if not complete:
+            c.harness_error("confirmation run incomplete")
+        out = []
+        for ti, t in enumerate(texts):
+            by_sig = {}
+            for m in range(7):
+                d = res[7 * ti + m]
+                if d["crash"]:
+                    st = fbp.symbolize(d["stderr"])
+                    if d["crash"] in ("signal:27", "timeout"):
+                        sig = "hang:cpu-limit"
+                    else:
+                        sig = crash_signature(d["crash"], st)
+                    by_sig.setdefault(sig, []).append((m, d["crash"], st))
+                elif m in d["modes"] and d["modes"][m]["status"] in "E?":
+                    by_sig.setdefault("foreign-exception:" + re.sub(r"[^A-Za-z:_]+", "-", d["modes"][m]["msg"])[:50], []).append((m, "exception", d["modes"][m]["msg"]))
+                elif d["ubsan"]:
+                    by_sig.setdefault(ubsan_signature(fbp.symbolize(d["ubsan"])), []).append((m, "ubsan", fbp.symbolize(d["ubsan"])))
+            found = []
+            for sig, lst in by_sig.items():
+                found.append((sig, "translators %s: %s\n%s" % ([MODES[m] for m, _, _ in lst], lst[0][1], lst[0][2][:1800])))
+            out.append(found)
+        return out
+
     def confirm(text):
-        """run one program alone, one translator per item, on fresh parsers under ASan+UBSan (and on rel for hangs);
-        returns list of (signature, detail)"""
-        found = []
-        res, _ = R_asan.run([text] * 7, ["N%d" % m for m in range(7)], chunk=7)
-        by_sig = {}
-        for m, d in enumerate(res):
-            if d["crash"]:
-                st = fbp.symbolize(d["stderr"])
-                if d["crash"] in ("signal:27", "timeout"):
-                    sig = "hang:asan-cpu-limit"
-                else:
-                    sig = fbp.crash_signature(d["crash"], st)
-                by_sig.setdefault(sig, []).append((m, d["crash"], st))
-            elif m in d["modes"] and d["modes"][m]["status"] in "E?":
-                by_sig.setdefault("foreign-exception:" + re.sub(r"[^A-Za-z:_]+", "-", d["modes"][m]["msg"])[:50], []).append((m, "exception", d["modes"][m]["msg"]))
-            elif d["ubsan"]:
-                by_sig.setdefault(ubsan_signature(fbp.symbolize(d["ubsan"])), []).append((m, "ubsan", d["ubsan"]))
-        for sig, lst in by_sig.items():
-            found.append((sig, "translators %s: %s\n%s" % ([MODES[m] for m, _, _ in lst], lst[0][1], lst[0][2][:1800])))
-        return found
+        return confirm_all([text])[0]
 
     if c.args.replay:
         r = load_replay(c.args.replay)["replay"]
@@ -184,10 +228,12 @@ def main():
 
     # ------------------------------------------------------------------------------------------------------------
     # pass 1: everything on the rel build
-    deadline = c.t0 + c.budget(75, 1000)
+    t_start = time.time()      # budgets count from here: building libocca and the drivers is not exploration
+    deadline = t_start + c.budget(400, 2400)
     t1 = time.time()
     res, complete = R_rel.run(texts, "R", chunk=max(50, min(400, len(texts) // 64)), deadline=deadline)
     rel_wall = time.time() - t1
+    dbg("rel pass: %d of %d programs in %.0f s" % (len(res), len(texts), rel_wall))
     n_done = len(res)
     if not complete and n_done < len(seeds):
         c.harness_error("rel pass did not even cover the seeds")
@@ -195,17 +241,21 @@ def main():
     viol_texts = {}     # text -> list of (sig, detail)
     classes = {}
     candidates = []
+    ubsan_hits = []     # (program, report): UBSan reports are recoverable and de-duplicated per source location and
+    #                     process, so they are taken from the run in which they appear instead of being re-confirmed
     counts = {"S": 0, "F": 0, "X": 0}
     seed_ok = 0
     for p, d in zip(progs, res):
         oc = outcome_class(d)
         classes.setdefault(oc, []).append(p)
-        if d["crash"] or any(x["status"] in "E?" for x in d["modes"].values()) or d["ubsan"]:
+        if d["crash"] or any(x["status"] in "E?" for x in d["modes"].values()):
             candidates.append(p)
+        elif d["ubsan"]:
+            ubsan_hits.append((p, d["ubsan"]))
         for x in d["modes"].values():
             if x["status"] in counts:
                 counts[x["status"]] += 1
-        if p[0] == "seed" and not d["crash"] and all(d["modes"].get(m, {}).get("status") == "S" for m in range(7)):
+        if p[0] == "seed" and not d["crash"] and all(d["modes"].get(m, {}).get("status") == "S" for m in (range(2) if p[1] in gen.HOST_ONLY_SEEDS else range(7))):
             seed_ok += 1
 
     # ------------------------------------------------------------------------------------------------------------
@@ -231,22 +281,36 @@ def main():
                 add(p)
     cand_set = set(p[2] for p in candidates)
     subset = [p for p in subset if p[2] not in cand_set]     # candidates are confirmed one by one below
-    asan_deadline = c.t0 + c.budget(170, 2400)
+    asan_deadline = time.time() + c.budget(400, 2400)
     t2 = time.time()
     ares, acomplete = R_asan.run([p[2] for p in subset], "R", chunk=max(4, min(40, len(subset) // 48)), deadline=asan_deadline)
     asan_wall = time.time() - t2
+    dbg("asan pass: %d of %d programs in %.0f s; %d candidates" % (len(ares), len(subset), asan_wall, len(candidates)))
     for p, d in zip(subset, ares):
-        if d["crash"] or any(x["status"] in "E?" for x in d["modes"].values()) or d["ubsan"]:
+        if d["crash"] or any(x["status"] in "E?" for x in d["modes"].values()):
             if p[2] not in cand_set:
                 cand_set.add(p[2])
                 candidates.append(p)
+        elif d["ubsan"]:
+            ubsan_hits.append((p, d["ubsan"]))
 
     # ------------------------------------------------------------------------------------------------------------
     # confirmation of every candidate alone on fresh parsers (ASan+UBSan): signature = sanitizer kind + innermost frame
     confirmed, unconfirmed = 0, 0
     sig_first = {}
-    for p in candidates:
-        found = confirm(p[2])
+    # confirmation costs 7 ASan parser constructions per candidate: the simplest CONFIRM_CAP candidates are confirmed;
+    # if there are more (hundreds of crashing programs = one gross defect) the rest is reported under one signature of
+    # its own, so a run with unconfirmed candidates can never pass
+    beyond_cap = candidates[CONFIRM_CAP:]
+    candidates = candidates[:CONFIRM_CAP]
+    if beyond_cap:
+        p = beyond_cap[0]
+        for q in beyond_cap:
+            c.violation("crash:not-classified-beyond-confirmation-cap",
+                        "%d crash candidates, only the first %d were classified under ASan; first unclassified: %s %s\n---\n%s" % (
+                            len(candidates) + len(beyond_cap), CONFIRM_CAP, p[0], p[1], p[2][:600]),
+                        {"family": q[0], "edit": q[1], "text": q[2]})
+    for p, found in zip(candidates, confirm_all([p[2] for p in candidates])):
         if not found:
             unconfirmed += 1
             continue
@@ -256,9 +320,16 @@ def main():
                         {"family": p[0], "edit": p[1], "text": p[2]})
             sig_first.setdefault(sig, p[1])
 
+    for p, report in ubsan_hits:
+        rep = fbp.symbolize(report)
+        for m in re.finditer(r"[^\n]*runtime error:[^\n]*", rep):
+            sig = ubsan_signature(m.group(0))
+            c.violation(sig, "%s %s: UBSan report while translating\n%s\n---\n%s" % (p[0], p[1], rep[:1500], p[2][:600]),
+                        {"family": p[0], "edit": p[1], "text": p[2]})
+
     # ------------------------------------------------------------------------------------------------------------
     # vacuity + evidence
-    c.vacuity(seed_ok == len(seeds), "only %d of %d seed kernels are accepted by all seven translators" % (seed_ok, len(seeds)))
+    c.vacuity(seed_ok == len(seeds), "only %d of %d seed kernels are accepted by all seven translators (host translators for the @atomic block seed)" % (seed_ok, len(seeds)))
     c.vacuity(counts["S"] > 100 and counts["F"] > 1000, "accept/reject both must occur: %s" % counts)
     c.vacuity(len(classes) >= 25, "fewer than 25 distinct outcome classes (%d)" % len(classes))
     fams = {}
@@ -276,13 +347,13 @@ def main():
         rel_pass="all %d programs x 7 translators on the rel build (harness with -fsanitize=undefined), parsers reused inside a worker, CPU limit %.0f s per program" % (n_done, CPU_LIMIT_REL),
         asan_pass="%d of %d selected programs x 7 translators under ASan+UBSan: all seeds, the first %d program(s) of each of the %d outcome classes of the rel pass%s" % (
             len(ares), len(subset), K, len(classes), "" if quick else ", every 1-deviation program of seed '%s'" % seeds[0][0]),
-        crash_candidates=len(candidates), candidates_confirmed_alone_on_fresh_parsers=confirmed, candidates_not_reproduced_alone=unconfirmed,
+        crash_candidates=len(candidates) + len(beyond_cap), candidates_beyond_confirmation_cap=len(beyond_cap), programs_with_ubsan_report=len(ubsan_hits), candidates_confirmed_alone_on_fresh_parsers=confirmed, candidates_not_reproduced_alone=unconfirmed,
         translator_results={"accepted": counts["S"], "rejected_with_errors": counts["F"], "occa_exception": counts["X"]},
         rel_wall_s=round(rel_wall, 1), asan_wall_s=round(asan_wall, 1),
-        bound=("quick: distance 1 with the full 34-token alphabet for seeds 1-3, delete/duplicate/swap/truncate for seeds 4-12; byte strings <= %d over %d symbols and <= %d over %d symbols in 3 wrappers" % (blen_a, len(gen.BYTES_A), blen_b, len(gen.BYTES_B))) if quick else
-              ("thorough: distance 1 (all 5 operators, 34-token alphabet) for all 12 seeds; distance 2 inside a 6-token window (15-token alphabet) for seeds 1-4; byte strings <= %d over %d symbols and <= %d over %d symbols in 3 wrappers" % (blen_a, len(gen.BYTES_A), blen_b, len(gen.BYTES_B))))
+        bound=("quick: distance 1 with the full %d-token alphabet for seeds 1-3, delete/duplicate/swap/truncate for seeds 4-13; byte strings <= %%d over %%d symbols and <= %%d over %%d symbols in 3 wrappers" % len(gen.ALPHABET) % (blen_a, len(gen.BYTES_A), blen_b, len(gen.BYTES_B))) if quick else
+              ("thorough: distance 1 (all 5 operators, %d-token alphabet) for all 13 seeds; distance 2 (delete/duplicate/swap/replace over a %d-token alphabet, both edits inside a 6-token window) for seeds 1-4; byte strings <= %%d over %%d symbols and <= %%d over %%d symbols in 3 wrappers" % (len(gen.ALPHABET), len(gen.ALPHA2)) % (blen_a, len(gen.BYTES_A), blen_b, len(gen.BYTES_B))))
     c.assumptions += [
-        "not coverage-guided fuzzing: the claim is exactly 'every program within the stated edit distance of the 12 seeds, and every short byte string in 3 wrappers'",
+        "not coverage-guided fuzzing: the claim is exactly 'every program within the stated edit distance of the 13 seeds, and every short byte string in 3 wrappers'",
         "memory errors that do not end in a signal are only visible in the ASan pass (subset stated in coverage.asan_pass)",
         "a candidate counts only if it reproduces alone on freshly constructed parsers",
     ]
